@@ -112,6 +112,14 @@ fn remove_excess_whitespace(s: &str) -> String {
     s.replace(is_excess_whitespace, "")
 }
 
+#[cfg(feature = "verif")]
+impl CallTracker {
+    /// The id that the next tracked call receives.
+    pub(crate) fn verif_next_id(&self) -> u32 {
+        self.next_id
+    }
+}
+
 impl CallTracker {
     /// Track a new function call with the given `span`.
     ///
